@@ -638,9 +638,11 @@ class TreeStreamCmp(TreeStream):
         return base
 
 
+import c03vcs  # noqa: E402  (vcs.py's own logic: streams vcs, vcsgit, vcsdetect)
+
 PROPERTY = Property(
     pid="C03",
-    streams=[NameStream(), TreeStreamCmp(), GitStream()],
+    streams=[NameStream(), TreeStreamCmp(), GitStream(), c03vcs.VcsCannedStream(), c03vcs.VcsGitStream(), c03vcs.VcsDetectStream()],
     assumptions=[
         "Git is an oracle (`git check-ignore`, .gitmodules); only Git is installed, the Mercurial/Jujutsu/Pijul strategies are not exercised",
         "os.walk / Path.is_file / is_dir / is_symlink / stat are modelled by the tree type (file with size, symlink, directory)",
